@@ -143,6 +143,10 @@ class NumberConverter(BaseConverter):
     ) -> None:
         if signed:
             self.regex = self.signed_regex
+        elif fixed_digits:
+            # Only match the required number of digits, so that a value
+            # this converter would reject is left to other rules.
+            self.regex = self.regex.replace(r"\d+", rf"\d{{{fixed_digits}}}", 1)
         super().__init__(map)
         self.fixed_digits = fixed_digits
         self.min = min
